@@ -390,7 +390,76 @@ func c19Gen(r *Rng, tier string, emit func(string)) {
 			return w.enc
 		}
 		ended := false
+		create := func(id, typ, seed, label string, n, enc, pw, temp int) {
+			name := "create"
+			key := typ + "-" + seed
+			if typ != "collection" && unloadedSeeds[key] && label != "-" && !(enc == 1 && (temp == 1 || pw == 0)) {
+				dup := false
+				for _, w := range mem {
+					if w.typ+"-"+w.seed == key {
+						dup = true
+					}
+				}
+				if !dup && mem[id] == nil && temp == 0 {
+					name = "create-after-unload"
+					ended = true // the directory now holds two files with one fingerprint: end the case
+				}
+			}
+			emit(fmt.Sprintf("%s %s %s %s %s %d %d %d %d", name, id, typ, seed, label, n, enc, pw, temp))
+			// bookkeeping for the generator only (the model does its own)
+			ok := label != "-" && !(enc == 1 && temp == 1) && !(enc == 1 && pw == 0) && mem[id] == nil
+			if ok && typ != "collection" {
+				for _, w := range mem {
+					if w.typ+"-"+w.seed == key {
+						ok = false
+					}
+				}
+			}
+			if ok {
+				e := 0
+				if enc == 1 {
+					e = pw
+				}
+				mem[id] = &gw{typ, seed, e, temp == 1}
+				if temp == 0 {
+					delete(unl, id) // the file of an unloaded wallet of that name is overwritten
+				}
+			}
+		}
 		for i := 0; i < nops && !ended; i++ {
+			if r.Chance(6) {
+				// a TEMPORARY wallet first, then wallets with the same seed: persistent / temporary twin (refused), the
+				// temporary one unloaded, a third create (accepted), once more (refused)
+				typ := []string{"deterministic", "bip44"}[r.Intn(2)]
+				seed := fmt.Sprint(r.Intn(4))
+				var free []string
+				for _, id := range ids {
+					if mem[id] == nil && unl[id] == nil {
+						free = append(free, id)
+					}
+				}
+				if len(free) >= 2 {
+					create(free[0], typ, seed, "T"+fmt.Sprint(r.Intn(9)), r.Intn(3), 0, 0, 1)
+					create(free[1], typ, seed, "T"+fmt.Sprint(r.Intn(9)), r.Intn(3), 0, 0, r.Intn(2))
+					if !ended && r.Chance(70) {
+						emit("unload " + free[0])
+						if w := mem[free[0]]; w != nil {
+							if !w.temp {
+								unloadedSeeds[w.typ+"-"+w.seed] = true
+								unl[free[0]] = w
+							}
+							delete(mem, free[0])
+						}
+						if !ended {
+							create(free[1], typ, seed, "T"+fmt.Sprint(r.Intn(9)), r.Intn(3), r.Intn(2), 1, 0)
+						}
+						if !ended && len(free) > 2 {
+							create(free[2], typ, seed, "T"+fmt.Sprint(r.Intn(9)), r.Intn(3), 0, 0, r.Intn(2))
+						}
+					}
+				}
+				continue
+			}
 			if r.Chance(7) {
 				// restart; the new instance must know every wallet it loaded: creates (persistent and temporary) with the
 				// seed of a loaded wallet of every type must be refused, with a free seed accepted
@@ -449,40 +518,7 @@ func c19Gen(r *Rng, tier string, emit func(string)) {
 				if r.Chance(15) {
 					temp = 1
 				}
-				name := "create"
-				key := typ + "-" + seed
-				if typ != "collection" && unloadedSeeds[key] && label != "-" && !(enc == 1 && (temp == 1 || pw == 0)) {
-					dup := false
-					for _, w := range mem {
-						if w.typ+"-"+w.seed == key {
-							dup = true
-						}
-					}
-					if !dup && mem[id] == nil && temp == 0 {
-						name = "create-after-unload"
-						ended = true // the directory now holds two files with one fingerprint: end the case
-					}
-				}
-				emit(fmt.Sprintf("%s %s %s %s %s %d %d %d %d", name, id, typ, seed, label, r.Intn(4), enc, pw, temp))
-				// bookkeeping for the generator only (the model does its own)
-				ok := label != "-" && !(enc == 1 && temp == 1) && !(enc == 1 && pw == 0) && mem[id] == nil
-				if ok && typ != "collection" {
-					for _, w := range mem {
-						if w.typ+"-"+w.seed == key {
-							ok = false
-						}
-					}
-				}
-				if ok {
-					e := 0
-					if enc == 1 {
-						e = pw
-					}
-					mem[id] = &gw{typ, seed, e, temp == 1}
-					if temp == 0 {
-						delete(unl, id) // the file of an unloaded wallet of that name is overwritten
-					}
-				}
+				create(id, typ, seed, label, r.Intn(4), enc, pw, temp)
 			case 3, 4:
 				id := pickMem()
 				emit(fmt.Sprintf("newaddr %s %d %d", id, r.Intn(4), pwFor(id)))
